@@ -297,20 +297,20 @@ Qed.
 (* the per-directory views agree *)
 Lemma child_view f c p d di :
   nview p d false (child_node (ig_sh (build_root (walk_builder_opts f) (walk_builder_env f c))) di)
-  = wdview f false p d (di_unread_exclude f di).
+  = wdview f false p d di.
 Proof.
   destruct f as [fh fd fe ff fg fp fv fr].
-  unfold nview, wdview, child_node, src_on, child_dotgit_test, repo_marker, exclude_as_read, git_type_seen,
-         di_unread_exclude, di_no_exclude. cbn.
+  unfold nview, wdview, child_node, src_on, child_dotgit_test, repo_marker, exclude_as_read, exclude_as_read_with,
+         git_type_seen. cbn.
   destruct fd, fe, fv, fr, (di_dotgit di); reflexivity.
 Qed.
 Lemma parent_view f c p d di :
   nview p d true (parent_node (ig_sh (build_root (walk_builder_opts f) (walk_builder_env f c))) di)
-  = wdview f true p d (di_unread_exclude f di).
+  = wdview f true p d di.
 Proof.
   destruct f as [fh fd fe ff fg fp fv fr].
   unfold nview, wdview, parent_node, child_node, src_on, parent_dotgit_test, child_dotgit_test, repo_marker,
-         exclude_as_read, git_type_seen, di_unread_exclude, di_no_exclude. cbn.
+         exclude_as_read, exclude_as_read_with, git_type_seen. cbn.
   destruct fd, fe, fv, fr, (di_dotgit di); reflexivity.
 Qed.
 
@@ -417,23 +417,8 @@ Proof.
   - reflexivity.
 Qed.
 
-Lemma last_dir_quirk f w : last_dir (gitlink_exclude_world f w) = last_dir w.
-Proof.
-  unfold last_dir, gitlink_exclude_world, map_dirs. cbn [w_below]. rewrite <- map_rev.
-  destruct (rev (w_below w)) as [|di r]; [reflexivity|]. cbn [map]. unfold di_unread_exclude.
-  destruct (f_no_require_git f), (di_dotgit di); reflexivity.
-Qed.
-
-Lemma has_any_quirk f w :
-  has_any_ignore_rules (world_ig f (gitlink_exclude_world f w)) = has_any_ignore_rules (world_ig f w).
-Proof.
-  unfold has_any_ignore_rules. destruct (world_ig_shape f w) as (HS & _).
-  destruct (world_ig_shape f (gitlink_exclude_world f w)) as (HS' & _). rewrite HS, HS'. reflexivity.
-Qed.
-
-(* full strength: the model's decision is the documented fold on the world as the code reads it *)
-Lemma decide_eq_world_gen_proof f w p0 d :
-  w_below w <> [] -> decide f w p0 d = decide_world f (gitlink_exclude_world f w) p0 d.
+Lemma decide_eq_world_proof f w p0 d :
+  w_below w <> [] -> decide f w p0 d = decide_world f w p0 d.
 Proof.
   intro HB. unfold decide, decide_world. rewrite matched_dir_entry_eq_spec.
   destruct (world_ig_shape f w) as (HS & HN & HA).
@@ -443,9 +428,9 @@ Proof.
   - unfold view_of, wview. cbn [s_overrides]. rewrite HS. reflexivity.
   - unfold view_of, wview. cbn [s_types]. rewrite HS. reflexivity.
   - reflexivity.
-  - replace (s_any_rules (wview f (gitlink_exclude_world f w) p0 d)) with true by reflexivity.
+  - replace (s_any_rules (wview f w p0 d)) with true by reflexivity.
     replace (s_any_rules (view_of (world_ig f w) p0 d)) with (has_any_ignore_rules (world_ig f w)) by reflexivity.
-    destruct (has_any_ignore_rules (world_ig f w)) eqn:HAny; [|symmetry; apply no_rules_stage; rewrite has_any_quirk; exact HAny].
+    destruct (has_any_ignore_rules (world_ig f w)) eqn:HAny; [|symmetry; apply no_rules_stage; exact HAny].
     unfold ignore_stage. f_equal.
     set (sh := ig_sh (build_root (walk_builder_opts f) (walk_builder_env f (w_cmd w)))) in *.
     set (pn := if early_return f then [] else
@@ -453,9 +438,8 @@ Proof.
     assert (Hpn : forallb nd_abs pn = true).
     { unfold pn. destruct (early_return f); [reflexivity|]. destruct (w_canon w); [apply parent_nodes_abs|reflexivity]. }
     destruct (split_nodes sh (w_below w) pn Hpn) as [HT HD].
-    assert (VB : s_below (view_of (world_ig f w) p0 d) = s_below (wview f (gitlink_exclude_world f w) p0 d)).
-    { unfold view_of, wview. cbn [s_below]. rewrite HN, HT. unfold gitlink_exclude_world, map_dirs. cbn [w_below].
-      rewrite !map_rev_map. apply map_ext. intro di. apply child_view. }
+    assert (VB : s_below (view_of (world_ig f w) p0 d) = s_below (wview f w p0 d)).
+    { unfold view_of, wview. cbn [s_below]. rewrite HN, HT, map_rev_map. apply map_ext. intro di. apply child_view. }
     assert (VA : s_above (view_of (world_ig f w) p0 d) =
                  match (if early_return f then None else w_canon w) with
                  | Some b => map (nview (rebase b (last_dir w) (strip_dot_slash p0)) d true) (pn ++ [root_node])
@@ -468,8 +452,7 @@ Proof.
       destruct fv, fg; reflexivity.
     + unfold view_of, wview. cbn [s_explicit]. rewrite HS. destruct f as [fh fd fe ff fg fp fv fr]. cbn.
       destruct ff; reflexivity.
-    + rewrite VA. unfold wview. cbn [s_above]. rewrite last_dir_quirk. unfold gitlink_exclude_world, map_dirs.
-      cbn [w_canon w_above]. unfold pn.
+    + rewrite VA. unfold wview. cbn [s_above]. unfold pn.
       destruct (early_return f) eqn:EE.
       * cbn [app map existsb nview_silent v_git root_node nd_has_git orb].
         destruct (w_canon w); [|reflexivity]. symmetry.
@@ -477,15 +460,14 @@ Proof.
         apply wdview_nogit_vcs. unfold early_return in EE. apply andb_true_iff in EE. tauto.
       * destruct (w_canon w) as [b|]; [|reflexivity].
         rewrite map_app. cbn [map]. rewrite existsb_app_single; [|reflexivity].
-        rewrite !map_rev_map. f_equal. apply map_ext. intro di. apply parent_view.
-    + intro EP. rewrite VA. unfold wview. cbn [s_above]. rewrite last_dir_quirk. unfold gitlink_exclude_world, map_dirs.
-      cbn [w_canon w_above]. unfold pn.
+        rewrite map_rev_map. f_equal. apply map_ext. intro di. apply parent_view.
+    + intro EP. rewrite VA. unfold wview. cbn [s_above]. unfold pn.
       assert (EE : early_return f = false).
       { destruct f as [fh fd fe ff fg fp fv fr]. cbn in EP. unfold early_return. cbn. destruct fp; [discriminate|reflexivity]. }
       rewrite EE. destruct (w_canon w) as [b|].
       * exists (nview (rebase b (last_dir w) (strip_dot_slash p0)) d true root_node).
         rewrite map_app. split; [|apply root_node_silent].
-        cbn [map]. f_equal. rewrite !map_rev_map. apply map_ext. intro di. apply parent_view.
+        cbn [map]. f_equal. rewrite map_rev_map. apply map_ext. intro di. apply parent_view.
       * exists (nview_silent root_node). cbn [app map]. split; [reflexivity|apply root_node_silent'].
 Qed.
 
@@ -716,121 +698,35 @@ Qed.
 Lemma map_nonempty {A B} (g : A -> B) l : l <> [] -> map g l <> [].
 Proof. destruct l; [intro H; exfalso; apply H; reflexivity|discriminate]. Qed.
 
-(* outside the class of the known finding the world is read as it is *)
-Lemma map_id_in {A} (g : A -> A) l : (forall x, In x l -> g x = x) -> map g l = l.
-Proof.
-  induction l as [|y r IH]; intro H; [reflexivity|]. cbn [map]. rewrite (H y (or_introl eq_refl)).
-  rewrite IH; [reflexivity|]. intros x Hx. apply H. right. exact Hx.
-Qed.
-
-Lemma quirk_world_id f w : ~ GitlinkExcludeNoRequire f w -> gitlink_exclude_world f w = w.
-Proof.
-  intro HC. destruct w as [c cn ab be]. unfold gitlink_exclude_world, map_dirs. cbn [w_cmd w_canon w_above w_below].
-  assert (HX : forall x, In x (ab ++ be) -> di_unread_exclude f x = x).
-  { intros x Hx. unfold di_unread_exclude. destruct (f_no_require_git f) eqn:E; [|reflexivity].
-    destruct (di_dotgit x) eqn:K; try reflexivity. exfalso. apply HC. split; [exact E|].
-    exists x. split; [exact Hx|exact K]. }
-  f_equal; apply map_id_in; intros x Hx; apply HX; apply in_or_app; [left|right]; exact Hx.
-Qed.
-
-Lemma decide_eq_world_proof f w p0 d :
-  w_below w <> [] -> ~ GitlinkExcludeNoRequire f w -> decide f w p0 d = decide_world f w p0 d.
-Proof. intros HB HC. rewrite decide_eq_world_gen_proof by exact HB. rewrite quirk_world_id by exact HC. reflexivity. Qed.
-
-(* the re-reading commutes with the erasures and ignores every flag but --no-require-git *)
-Lemma quirk_flag f f' w : f_no_require_git f = f_no_require_git f' -> gitlink_exclude_world f w = gitlink_exclude_world f' w.
-Proof. intro H. unfold gitlink_exclude_world, di_unread_exclude. rewrite H. reflexivity. Qed.
-
-Lemma quirk_dirs_commute f g w : (forall di, di_unread_exclude f (g di) = g (di_unread_exclude f di)) ->
-  gitlink_exclude_world f (map_dirs g w) = map_dirs g (gitlink_exclude_world f w).
-Proof.
-  intro H. unfold gitlink_exclude_world, map_dirs. cbn [w_cmd w_canon w_above w_below]. rewrite !map_map.
-  f_equal; apply map_ext; exact H.
-Qed.
-Lemma quirk_cmd_commute f gc w : gitlink_exclude_world f (map_cmd gc w) = map_cmd gc (gitlink_exclude_world f w).
-Proof. reflexivity. Qed.
-
-Ltac quirk_di f di := unfold di_unread_exclude; destruct (f_no_require_git f); [|reflexivity];
-  destruct di as [dp dc dd dg de k]; cbn; destruct k; reflexivity.
-Lemma quirk_no_dot f di : di_unread_exclude f (di_no_dot di) = di_no_dot (di_unread_exclude f di).
-Proof. quirk_di f di. Qed.
-Lemma quirk_no_exclude f di : di_unread_exclude f (di_no_exclude di) = di_no_exclude (di_unread_exclude f di).
-Proof. quirk_di f di. Qed.
-Lemma quirk_no_vcs f di : di_unread_exclude f (di_no_vcs di) = di_no_vcs (di_unread_exclude f di).
-Proof. quirk_di f di. Qed.
-Lemma quirk_no_rules f di : di_unread_exclude f (di_no_rules di) = di_no_rules (di_unread_exclude f di).
-Proof. quirk_di f di. Qed.
-
-Lemma quirk_erase_dot f w : gitlink_exclude_world f (erase_dot w) = erase_dot (gitlink_exclude_world f w).
-Proof. apply quirk_dirs_commute, quirk_no_dot. Qed.
-Lemma quirk_erase_exclude f w : gitlink_exclude_world f (erase_exclude w) = erase_exclude (gitlink_exclude_world f w).
-Proof. apply quirk_dirs_commute, quirk_no_exclude. Qed.
-Lemma quirk_erase_global f w : gitlink_exclude_world f (erase_global w) = erase_global (gitlink_exclude_world f w).
-Proof. reflexivity. Qed.
-Lemma quirk_erase_files f w : gitlink_exclude_world f (erase_files w) = erase_files (gitlink_exclude_world f w).
-Proof. reflexivity. Qed.
-Lemma quirk_erase_vcs f w : gitlink_exclude_world f (erase_vcs w) = erase_vcs (gitlink_exclude_world f w).
-Proof. unfold erase_vcs. rewrite quirk_cmd_commute. f_equal. apply quirk_dirs_commute, quirk_no_vcs. Qed.
-Lemma quirk_erase_parent f w : gitlink_exclude_world f (erase_parent w) = erase_parent (gitlink_exclude_world f w).
-Proof.
-  unfold gitlink_exclude_world, erase_parent, map_dirs. cbn [w_cmd w_canon w_above w_below]. rewrite !map_map.
-  f_equal. apply map_ext. intro di. apply quirk_no_rules.
-Qed.
-Lemma quirk_erase5 f w : gitlink_exclude_world f (erase5 w) = erase5 (gitlink_exclude_world f w).
-Proof.
-  unfold erase5. rewrite quirk_erase_vcs, quirk_erase_parent, quirk_erase_global, quirk_erase_exclude, quirk_erase_dot.
-  reflexivity.
-Qed.
-(* once every exclude file is erased the re-reading changes nothing *)
-Lemma erase5_quirk f w : erase5 (gitlink_exclude_world f w) = erase5 w.
-Proof.
-  destruct w as [c cn ab be].
-  unfold erase5, erase_vcs, erase_parent, erase_global, erase_exclude, erase_dot, gitlink_exclude_world, map_cmd, map_dirs.
-  cbn [w_cmd w_canon w_above w_below]. rewrite !map_map.
-  assert (HX : forall di, di_dotgit (di_unread_exclude f di) = di_dotgit di
-                          /\ di_path (di_unread_exclude f di) = di_path di
-                          /\ di_custom (di_unread_exclude f di) = di_custom di
-                          /\ di_dotignore (di_unread_exclude f di) = di_dotignore di
-                          /\ di_gitignore (di_unread_exclude f di) = di_gitignore di).
-  { intro di. unfold di_unread_exclude. destruct (f_no_require_git f); [|repeat split].
-    destruct di as [dp dc dd dg de k]. cbn. destruct k; repeat split. }
-  f_equal; apply map_ext; intro di; destruct (HX di) as (H1 & H2 & H3 & H4 & H5);
-    unfold di_no_vcs, di_no_rules, di_no_exclude, di_no_dot; cbn; rewrite ?H1, ?H2, ?H3, ?H4, ?H5; reflexivity.
-Qed.
-
 Ltac via_world HB :=
-  rewrite !decide_eq_world_gen_proof; [| try exact HB; cbn [erase_dot erase_exclude erase_global erase_vcs erase_files erase_parent erase5
+  rewrite !decide_eq_world_proof; [| try exact HB; cbn [erase_dot erase_exclude erase_global erase_vcs erase_files erase_parent erase5
       map_dirs map_cmd w_below]; repeat apply map_nonempty; exact HB ..].
-Ltac to_flag f := repeat match goal with
-  | |- context [gitlink_exclude_world ?g ?w] =>
-      lazymatch g with f => fail | _ => rewrite (quirk_flag g f w) by (destruct f; reflexivity) end
-  end.
 
 Lemma flag_dot_proof f w p d : w_below w <> [] ->
   decide (set_dot true f) w p d = decide (set_dot false f) (erase_dot w) p d.
-Proof. intro HB. via_world HB. to_flag f. rewrite quirk_erase_dot. apply flag_dot_world. Qed.
+Proof. intro HB. via_world HB. apply flag_dot_world. Qed.
 Lemma flag_exclude_proof f w p d : w_below w <> [] ->
   decide (set_exclude true f) w p d = decide (set_exclude false f) (erase_exclude w) p d.
-Proof. intro HB. via_world HB. to_flag f. rewrite quirk_erase_exclude. apply flag_exclude_world. Qed.
+Proof. intro HB. via_world HB. apply flag_exclude_world. Qed.
 Lemma flag_global_proof f w p d : w_below w <> [] ->
   decide (set_global true f) w p d = decide (set_global false f) (erase_global w) p d.
-Proof. intro HB. via_world HB. to_flag f. rewrite quirk_erase_global. apply flag_global_world. Qed.
+Proof. intro HB. via_world HB. apply flag_global_world. Qed.
 Lemma flag_files_proof f w p d : w_below w <> [] ->
   decide (set_files true f) w p d = decide (set_files false f) (erase_files w) p d.
-Proof. intro HB. via_world HB. to_flag f. rewrite quirk_erase_files. apply flag_files_world. Qed.
+Proof. intro HB. via_world HB. apply flag_files_world. Qed.
 Lemma flag_vcs_proof f w p d : w_below w <> [] ->
   decide (set_vcs true f) w p d = decide (set_vcs false f) (erase_vcs w) p d.
-Proof. intro HB. via_world HB. to_flag f. rewrite quirk_erase_vcs. apply flag_vcs_world. Qed.
+Proof. intro HB. via_world HB. apply flag_vcs_world. Qed.
 Lemma flag_parent_proof f w p d : w_below w <> [] ->
   decide (set_parent true f) w p d = decide (set_parent false f) (erase_parent w) p d.
-Proof. intro HB. via_world HB. to_flag f. rewrite quirk_erase_parent. apply flag_parent_world. Qed.
+Proof. intro HB. via_world HB. apply flag_parent_world. Qed.
 Lemma flag_no_ignore_proof f w p d : w_below w <> [] ->
   decide (flag_no_ignore f) w p d = decide (clear5 f) (erase5 w) p d.
-Proof. intro HB. via_world HB. to_flag f. rewrite quirk_erase5. apply flag_no_ignore_world. Qed.
+Proof. intro HB. via_world HB. apply flag_no_ignore_world. Qed.
 Lemma flag_hidden_proof f w p d : w_below w <> [] ->
   decide (set_hidden true f) w p d
-  = decide_spec (walk_builder_opts (set_hidden false f)) (unhide (wview (set_hidden false f) (gitlink_exclude_world f w) p d)).
-Proof. intro HB. rewrite decide_eq_world_gen_proof by exact HB. to_flag f. apply flag_hidden_world. Qed.
+  = decide_spec (walk_builder_opts (set_hidden false f)) (unhide (wview (set_hidden false f) w p d)).
+Proof. intro HB. rewrite decide_eq_world_proof by exact HB. apply flag_hidden_world. Qed.
 Lemma flag_unrestricted_proof n f w p d : w_below w <> [] ->
   decide (flag_unrestricted n f) w p d =
   match n with
@@ -839,14 +735,10 @@ Lemma flag_unrestricted_proof n f w p d : w_below w <> [] ->
   | _ => decide_spec (walk_builder_opts (set_hidden false (clear5 f))) (unhide (wview (set_hidden false (clear5 f)) (erase5 w) p d))
   end.
 Proof.
-  intro HB. rewrite decide_eq_world_gen_proof by exact HB. rewrite flag_unrestricted_world.
-  assert (HB5 : w_below (erase5 w) <> []).
-  { cbn [erase5 erase_dot erase_exclude erase_global erase_vcs erase_parent map_dirs map_cmd w_below].
-    repeat apply map_nonempty. exact HB. }
-  destruct n as [|[|n]].
-  - symmetry. apply decide_eq_world_gen_proof. exact HB.
-  - rewrite (decide_eq_world_gen_proof (clear5 f) (erase5 w)) by exact HB5. rewrite quirk_erase5, !erase5_quirk. reflexivity.
-  - rewrite erase5_quirk. reflexivity.
+  intro HB. rewrite decide_eq_world_proof by exact HB. rewrite flag_unrestricted_world.
+  destruct n as [|[|n]]; try reflexivity; symmetry; apply decide_eq_world_proof; try exact HB.
+  cbn [erase5 erase_dot erase_exclude erase_global erase_vcs erase_parent map_dirs map_cmd w_below].
+  repeat apply map_nonempty. exact HB.
 Qed.
 
 (* ================================================================ what `last component` means *)
